@@ -31,6 +31,21 @@ theorem step_mkns (w : World) (cs : Bool) (items : List Item) (hr : (Op.mkns cs 
        .nat (ctorLoop w (NS.empty cs) items).1.nss.length) := by
   simp [step, hr]
 
+theorem step_copyKw (w : World) (n : Nat) (cs mu : Option Bool) : step w (.copyKw n cs mu) = match w.nss[n]? with
+    | none => (w, .bad)
+    | some s => if mu = some false ∧ s.taxa ≠ [] then (w, .err .immutable)
+                else ({ w with nss := w.nss ++ [s.copyCtor] }, .nat w.nss.length) := by
+  rw [step_ns (n := n) rfl rfl]; cases w.nss[n]? <;> simp [stepNs]
+
+theorem step_mknsImm (w : World) (cs : Bool) (items : List Item) (hr : (Op.mknsImm cs items).refsOk w.labels.length = true) :
+    step w (.mknsImm cs items) =
+      if items = [] then ({ w with nss := w.nss ++ [{ NS.empty cs with mutable_ := false }] }, .nat w.nss.length)
+      else (w, .err .immutable) := by
+  simp [step, hr]
+
+theorem inv_empty_imm (cs : Bool) : Inv { NS.empty cs with mutable_ := false } := by
+  constructor <;> simp [NS.empty]
+
 theorem step_upd (w : World) (op : Op) (ha : op.appends = false) :
     Upd ⟨op.isSetMut, op.grows, (step w op).1.labels.length⟩ w (step w op).1 := by
   cases hr : op.refsOk w.labels.length with
@@ -49,6 +64,7 @@ theorem step_upd (w : World) (op : Op) (ha : op.appends = false) :
         by_cases h : t < w.labels.length
         · simp only [hr, h]; exact upd_labels _ (by simp)
         · simp only [hr, h]; exact upd_refl _ _
+      · cases ha
     | some n =>
       rw [step_ns hr hn]
       cases hs : w.nss[n]? with
@@ -125,6 +141,28 @@ theorem winv_step {w : World} (hw : WInv w) (op : Op) : WInv (step w op).1 := by
         intro t ht
         have := deepCopy_fresh s w.labels.length t ht
         simp; omega
+    · -- mknsImm
+      rename_i cs items
+      cases hr : (Op.mknsImm cs items).refsOk w.labels.length with
+      | false => rw [step_bad hr]; exact hw
+      | true =>
+        rw [step_mknsImm w cs items hr]
+        by_cases he : items = []
+        · rw [if_pos he]
+          exact winv_append hw _ _ (Nat.le_refl _) (inv_empty_imm cs) (by simp [NS.empty])
+        · rw [if_neg he]; exact hw
+    · -- copyKw
+      rename_i n cs mu
+      rw [step_copyKw]
+      cases hs : w.nss[n]? with
+      | none => exact hw
+      | some s =>
+        have hmem : s ∈ w.nss := List.mem_of_getElem? hs
+        simp only
+        by_cases hc : mu = some false ∧ s.taxa ≠ []
+        · rw [if_pos hc]; exact hw
+        · rw [if_neg hc, copyCtor_eq (hw.ns s hmem)]
+          exact winv_append hw _ _ (Nat.le_refl _) (hw.ns s hmem) (hw.fresh s hmem)
 
 /-- existing namespaces keep their position and change by primitive changes only (all operations) -/
 theorem step_rel (w : World) (op : Op) (j : Nat) (s : NS) (hs : w.nss[j]? = some s) :
@@ -154,5 +192,22 @@ theorem step_rel (w : World) (op : Op) (j : Nat) (s : NS) (hs : w.nss[j]? = some
       cases w.nss[n]? with
       | none => exact ⟨s, hs, .refl _⟩
       | some x => exact ⟨s, by simp only; rw [List.getElem?_append_left hlt]; exact hs, .refl _⟩
+    · rename_i cs items
+      cases hr : (Op.mknsImm cs items).refsOk w.labels.length with
+      | false => rw [step_bad hr]; exact ⟨s, hs, .refl _⟩
+      | true =>
+        rw [step_mknsImm w cs items hr]
+        by_cases he : items = []
+        · rw [if_pos he]; exact ⟨s, by simp only; rw [List.getElem?_append_left hlt]; exact hs, .refl _⟩
+        · rw [if_neg he]; exact ⟨s, hs, .refl _⟩
+    · rename_i n cs mu
+      rw [step_copyKw]
+      cases w.nss[n]? with
+      | none => exact ⟨s, hs, .refl _⟩
+      | some x =>
+        simp only
+        by_cases hc : mu = some false ∧ x.taxa ≠ []
+        · rw [if_pos hc]; exact ⟨s, hs, .refl _⟩
+        · rw [if_neg hc]; exact ⟨s, by simp only; rw [List.getElem?_append_left hlt]; exact hs, .refl _⟩
 
 end DendroModel.C10.Aux
